@@ -136,7 +136,7 @@ Proof.
   destruct (manip_oid mfx (m_outer_sigalg (cc_manip c))) as [outer|] eqn:Eo; [|discriminate].
   destruct (manip_oid mfx (m_tbs_pkalg (cc_manip c))) as [pkalg|] eqn:Ep; [|discriminate].
   destruct (match m_sigvalue (cc_manip c) with [] => _ | _ => _ end) as [sigv|]; [|discriminate].
-  destruct (map_opt _ (cc_exts c)) as [exts|]; [|discriminate]. injection H as <-.
+  destruct (map_opt _ (cc_exts c)) as [exts|]; [|discriminate]. match goal with H : (if ?X then None else _) = Some _ |- _ => destruct X eqn:?; [discriminate H|] end. injection H as <-.
   unfold params_wf. cbn [t_inner t_spki t_outer sp_alg].
   split; [|split].
   - exact (or_default_wf _ _ _ _ Ei (mk_algid_wf mfx so rsa)).
@@ -162,7 +162,7 @@ Proof.
   destruct (manip_oid mfx (m_outer_sigalg (cc_manip c))) as [outer|]; [|discriminate].
   destruct (manip_oid mfx (m_tbs_pkalg (cc_manip c))) as [pkalg|]; [|discriminate].
   destruct (match m_sigvalue (cc_manip c) with [] => _ | _ => _ end) as [sigv|]; [|discriminate].
-  destruct (map_opt _ (cc_exts c)) as [exts|]; [|discriminate]. injection H as <-.
+  destruct (map_opt _ (cc_exts c)) as [exts|]; [|discriminate]. match goal with H : (if ?X then None else _) = Some _ |- _ => destruct X eqn:?; [discriminate H|] end. injection H as <-.
   eexists _, _. split; reflexivity.
 Qed.
 
